@@ -21,7 +21,7 @@ import t_restart
 R = "Sympler.Restart."
 THEOREMS = [R + t for t in ["C18_tokens", "C18_tokens_alphabet", "C18_tokens_plus_occurs", "C18_tokens_without_plus_witness", "C18_tokens_with_plus_witness",
                             "C18_exact_domain", "C18_exact_domain_number", "C18_columns", "C18_columns_identity", "C18_columns_count", "C18_columns_attr",
-                            "C18_partial", "C18_writer_formats"]]
+                            "C18_partial", "C18_writer_formats", "C18_column_layout"]]
 MODULES = ["Sympler.Restart", "Sympler.RestartLemmas", "Sympler.Gen.RestartGen", "Props.C18"]
 TR = "translator t_restart (character class of ParticleCreatorFile::readNext, parenthesis counter; stream precision of writeRestartFile, sprintf formats of toStringByIndex)"
 
